@@ -279,6 +279,12 @@ func c16DecodeOne(c *rt.Ctx, sub int, k intKind, pos, lit string, want *big.Int,
 	case valid && got != want.String():
 		c.Violate(rt.Violation{Monitor: "int-decode", Entry: "Unmarshal", Kind: "wrong-value", Ctx: k.name + ":" + pos + ":" + cls,
 			Detail: fmt.Sprintf("%s literal %s at %s stored %s", k.name, lit, pos, got), Input: lit, Sub: sub})
+	case !valid && err == nil && pos == "stream":
+		// A Decoder reads one value and leaves what follows in the stream: "01" is the value 0
+		// followed by 1, "1-" the value 1 followed by a stray byte, for encoding/json's Decoder
+		// as well. The property demands an error from Unmarshal; here only a wrong stored value
+		// would count, and the prefix value is the right one.
+		c.Obs("stream_prefix_values_not_judged", 1)
 	case !valid && err == nil:
 		c.Violate(rt.Violation{Monitor: "int-decode", Entry: "Unmarshal", Kind: "accepts:" + cls, Ctx: k.name + ":" + pos,
 			Detail: fmt.Sprintf("%s literal %q at %s accepted, stored %s", k.name, lit, pos, got), Input: lit, Sub: sub})
